@@ -36,6 +36,10 @@ func checkC02(c *Check) {
 	c.RuleDoc["R02.17"] = "no empty data block is emitted (= R09.14): its size word is the end mark, and the sequential Reader takes a zero-length block for 'block left in its own buffer' and hands out stale bytes"
 	ruleInitTransition(c, p, "R02.18")
 	c.RuleDoc["R02.18"] = "the first-use initialisation is followed by the state transition on every path (= R17.10): otherwise the header is written twice and the frame no longer decodes"
+	ruleNoAppendOntoBlockBytes(c, p, "R02.20")
+	c.RuleDoc["R02.20"] = "nothing is appended to a slice of block bytes (borrowed from the caller or from the pool)"
+	ruleCloseWAlwaysCloses(c, p, "R02.19")
+	c.RuleDoc["R02.19"] = "= R08.15: Close waits for the block pipeline on every path, legacy frames included (blocks still queued when Close returns never reach the sink)"
 	ruleOwnBufferNotAliased(c, p, "R02.15")
 	c.RuleDoc["R02.15"] = "the Reader's block buffer never becomes the caller's buffer"
 	ruleLegacyDescriptor(c, p, "R02.14")
@@ -115,6 +119,10 @@ func checkC09(c *Check) {
 	c.RuleDoc["R09.16"] = "= R02.13 (pending bytes emitted once, in call order)"
 	ruleBuffersRefetched(c, p, "R09.17", "Writer")
 	c.RuleDoc["R09.17"] = "the Writer's block buffer is sized from the block-size code of the frame being started (legacy: 8 MiB of content per block)"
+	ruleDirectWrite(c, p, "R09.19")
+	c.RuleDoc["R09.19"] = "= R02.7: a caller's block is compressed in place only when nothing is pending (otherwise the frame is well formed but carries the content in another order)"
+	ruleInitTransition(c, p, "R09.20")
+	c.RuleDoc["R09.20"] = "= R17.10: the first-use initialisation is followed by the state transition on every path (otherwise magic and descriptor are emitted twice)"
 	ruleNoEmptyBlock(c, p, "R09.14", "")
 	c.RuleDoc["R09.14"] = "no empty data block is emitted: prefix slices handed to the block compressor have a positive length"
 	ruleNestedRearm(c, p, "R09.13")
